@@ -80,6 +80,7 @@ def parse_module(text: str) -> dict[str, Func]:
         # clang 14 prints typed pointers: normalise every pointer type to `ptr`
         raw = _PTR.sub("ptr", raw)
         line = raw.split(" ; ")[0].rstrip() if not raw.lstrip().startswith(";") else ""
+        line = re.sub(r"(, ![\w.]+ ![\w.]+)+$", "", line)  # trailing metadata attachments (!prof, !tbaa, ...)
         if cur is None:
             if raw.startswith("define"):
                 m = _DEF.match(raw.strip())
@@ -118,6 +119,9 @@ def parse_module(text: str) -> dict[str, Func]:
             continue
         m = re.match(r"^([\w.\-]+):", s)
         if m and not s.startswith("%"):
+            if blk is not None and len(cur.blocks) == 1 and not blk.instrs:
+                blk.label = m.group(1)  # the entry block carries an explicit label
+                continue
             blk = Block(m.group(1))
             cur.blocks.append(blk)
             continue
